@@ -48,15 +48,15 @@ theorem old_guard_unsound_served :
      folderGetOld fsEx [['r']] ((url.stripPrefix (mkPrefix [])).getD url)) = .ok 7 := by decide
 
 /-- … and is refused by the repaired code -/
-example : serveStatic fsEx [⟨mkPrefix [], .folder [['r']]⟩] ['/', '.', '.', '/', 's'] = .notFound := by decide
+example : serveStatic fsEx Accept.none [⟨mkPrefix [], .folder [['r']]⟩] ['/', '.', '.', '/', 's'] = .notFound := by decide
 
 /-! ## folder source -/
 
 /-- **C07 (folder)**: whatever `Folder::get_data` returns is the content of a file strictly
     inside the root – for every URL string and every symlink-free file system in which the root
     is a directory. -/
-theorem folder_confined (fs : FS) (root : Loc) (url : Url) (c : Nat)
-    (hn : RootNames root) (hr : RootOk fs root) (h : folderGet fs root url = .ok c) :
+theorem folder_confined (fs : FS) (root : Loc) (url : Url) (acc : Accept) (c : Nat)
+    (hn : RootNames root) (hr : RootOk fs root) (h : folderGet fs root url acc = .ok c) :
     ∃ l, root <+: l ∧ l ≠ root ∧ fs.node l = some (.file c) := by
   unfold folderGet at h
   split at h
@@ -75,8 +75,8 @@ theorem folder_confined (fs : FS) (root : Loc) (url : Url) (c : Nat)
     · cases h
 
 /-- a URL with a `..` segment anywhere is answered `404` by the folder source -/
-theorem dotdot_segment_404 (fs : FS) (root : Loc) (url : Url)
-    (h : sDotDot ∈ splitSlash url.tail) : folderGet fs root url = .notFound := by
+theorem dotdot_segment_404 (fs : FS) (root : Loc) (url : Url) (acc : Accept)
+    (h : sDotDot ∈ splitSlash url.tail) : folderGet fs root url acc = .notFound := by
   have hp : hasParent (joinRel root url.tail) = true := by
     unfold joinRel
     split
@@ -96,10 +96,10 @@ theorem dotdot_segment_404 (fs : FS) (root : Loc) (url : Url)
 
 /-- **C07 (404 half)**: if the operating system resolves the joined path to a location that is
     not inside the root, the folder source never answers with content. -/
-theorem outside_never_served (fs : FS) (root : Loc) (url : Url) (l : Loc)
+theorem outside_never_served (fs : FS) (root : Loc) (url : Url) (acc : Accept) (l : Loc)
     (hn : RootNames root) (hr : RootOk fs root)
     (hres : resolve fs [] (joinRel root url.tail) = some l) (hout : ¬ root <+: l) :
-    ∀ c, folderGet fs root url ≠ .ok c := by
+    ∀ c, folderGet fs root url acc ≠ .ok c := by
   intro c h
   unfold folderGet at h
   split at h
@@ -162,8 +162,8 @@ theorem openChain_panic {fs : FS} {p : Segs} (h : openChain fs p = .panic) :
 /-- The handler task panics (connection closed without a response) only when one of the three
     `File::open` candidates is a *directory* – e.g. a directory named `index.html` – and that
     directory lies inside the root (or is the root): nothing outside is touched. -/
-theorem folder_panic_inside (fs : FS) (root : Loc) (url : Url)
-    (hn : RootNames root) (hr : RootOk fs root) (h : folderGet fs root url = .panic) :
+theorem folder_panic_inside (fs : FS) (root : Loc) (url : Url) (acc : Accept)
+    (hn : RootNames root) (hr : RootOk fs root) (h : folderGet fs root url acc = .panic) :
     ∃ l, root <+: l ∧ fs.node l = some .dir := by
   unfold folderGet at h
   split at h
@@ -195,7 +195,7 @@ theorem folder_panic_inside (fs : FS) (root : Loc) (url : Url)
     · cases h
 
 /-- the observed instance: `GET /weird` with a directory `weird/index.html` -/
-example : serveStatic [([], .dir), ([['r']], .dir), ([['r'], ['w']], .dir), ([['r'], ['w'], sIndex], .dir)]
+example : serveStatic (fs := [([], .dir), ([['r']], .dir), ([['r'], ['w']], .dir), ([['r'], ['w'], sIndex], .dir)]) Accept.none
     [⟨mkPrefix [], .folder [['r']]⟩] ['/', 'w'] = .panic := by decide
 
 /-! ## percent-encoded segments are ordinary names -/
@@ -223,12 +223,12 @@ example : classify ['.', '.', '%', '2', 'f'] = .name ['.', '.', '%', '2', 'f'] :
 /-! ## tar source -/
 
 /-- **C07 (tar)**: `get_data` returns only values stored in the map … -/
-theorem tar_only_map_values (m : TarMap) (url : Url) (c : Nat) (h : tarGet m url = .ok c) :
+theorem tar_only_map_values (m : TarMap) (url : Url) (acc : Accept) (c : Nat) (h : tarGet m url acc = .ok c) :
     TarVal m c := tarGet_val h
 
 /-- … and the map built at start-up holds only contents of archive members. -/
-theorem tar_only_members (ms : List (Str × Nat)) (url : Url) (c : Nat)
-    (h : tarGet (tarBuild ms) url = .ok c) : ∃ x ∈ ms, x.2 = c := by
+theorem tar_only_members (ms : List (Str × Nat)) (url : Url) (acc : Accept) (c : Nat)
+    (h : tarGet (tarBuild ms) url acc = .ok c) : ∃ x ∈ ms, x.2 = c := by
   have hv := tarGet_val h
   rcases tarBuild_val_aux ms [] c hv with h | ⟨k, e, hm, _⟩
   · exact h
@@ -246,10 +246,10 @@ def BackendOk (fs : FS) : Backend → Prop
   | .folder root => RootNames root ∧ RootOk fs root
   | .tar _ => True
 
-theorem backend_confined (fs : FS) (b : Backend) (url : Url) (c : Nat)
-    (hb : BackendOk fs b) (h : b.get fs url = .ok c) : Within fs b c := by
+theorem backend_confined (fs : FS) (b : Backend) (url : Url) (acc : Accept) (c : Nat)
+    (hb : BackendOk fs b) (h : b.get fs url acc = .ok c) : Within fs b c := by
   cases b with
-  | folder root => exact folder_confined fs root url c hb.1 hb.2 h
+  | folder root => exact folder_confined fs root url acc c hb.1 hb.2 h
   | tar m => exact tarGet_val h
 
 /-- `strip_prefix(..).unwrap()` after `starts_with` cannot panic -/
@@ -258,17 +258,17 @@ theorem strip_after_starts (u p : Url) (h : u.startsWith p = true) : (u.stripPre
   simp [Url.stripPrefix, h]
 
 /-- every URL prefix: stripping it hands *some* URL to the back end, whose answer is confined -/
-theorem source_confined (fs : FS) (s : Source) (url : Url) (c : Nat)
-    (hb : BackendOk fs s.backend) (h : s.get fs url = .ok c) : Within fs s.backend c := by
+theorem source_confined (fs : FS) (s : Source) (url : Url) (acc : Accept) (c : Nat)
+    (hb : BackendOk fs s.backend) (h : s.get fs url acc = .ok c) : Within fs s.backend c := by
   unfold Source.get at h
   split at h
   · split at h
     · cases h
-    · exact backend_confined fs _ _ c hb h
+    · exact backend_confined fs _ _ acc c hb h
   · cases h
 
-theorem firstHit_confined (fs : FS) (url : Url) : ∀ (srcs : List Source) (c : Nat),
-    (∀ s ∈ srcs, BackendOk fs s.backend) → firstHit fs url srcs = .ok c →
+theorem firstHit_confined (fs : FS) (url : Url) (acc : Accept) : ∀ (srcs : List Source) (c : Nat),
+    (∀ s ∈ srcs, BackendOk fs s.backend) → firstHit fs url acc srcs = .ok c →
     ∃ s ∈ srcs, Within fs s.backend c := by
   intro srcs
   induction srcs with
@@ -279,16 +279,16 @@ theorem firstHit_confined (fs : FS) (url : Url) : ∀ (srcs : List Source) (c : 
     split at h
     · obtain ⟨s', hs', hw⟩ := ih c (fun t ht => hb t (by simp [ht])) h
       exact ⟨s', by simp [hs'], hw⟩
-    · exact ⟨s, by simp, source_confined fs s url c (hb s (by simp)) h⟩
+    · exact ⟨s, by simp, source_confined fs s url acc c (hb s (by simp)) h⟩
 
 /-- **C07**: for every request target, every list of static sources (folder or tar, any URL
     prefixes) – a `200` carries the content of a file strictly inside one configured folder or a
     value of one configured archive map. -/
-theorem serve_confined (fs : FS) (srcs : List Source) (target : Str) (c : Nat)
-    (hb : ∀ s ∈ srcs, BackendOk fs s.backend) (h : serveStatic fs srcs target = .ok c) :
+theorem serve_confined (fs : FS) (acc : Accept) (srcs : List Source) (target : Str) (c : Nat)
+    (hb : ∀ s ∈ srcs, BackendOk fs s.backend) (h : serveStatic fs acc srcs target = .ok c) :
     ∃ s ∈ srcs, Within fs s.backend c := by
   unfold serveStatic at h
-  exact firstHit_confined fs _ srcs c hb h
+  exact firstHit_confined fs _ acc srcs c hb h
 
 /-- `Url::new` always yields a string starting with `/` (so `&str[1..]` is in bounds) -/
 theorem url_new_slash (s : Str) : ∃ t, (Url.new s).str = '/' :: t := by
@@ -303,15 +303,20 @@ def fsOk : FS :=
   [([], .dir), ([['r']], .dir), ([['r'], ['a']], .file 1), ([['r'], ['d']], .dir),
    ([['r'], ['d'], sIndex], .file 2), ([['r'], ['b', '.', 'b', 'r']], .file 3), ([['s']], .file 7)]
 
-example : serveStatic fsOk [⟨mkPrefix [], .folder [['r']]⟩] ['/', 'a'] = .ok 1 := by decide
-example : serveStatic fsOk [⟨mkPrefix [], .folder [['r']]⟩] ['/', 'd'] = .ok 2 := by decide
-example : serveStatic fsOk [⟨mkPrefix [], .folder [['r']]⟩] ['/', 'd', '/'] = .ok 2 := by decide
-example : serveStatic fsOk [⟨mkPrefix [], .folder [['r']]⟩] ['/', 'b'] = .ok 3 := by decide
-example : serveStatic fsOk [⟨mkPrefix ['p'], .folder [['r']]⟩] ['/', 'p', '/', '/', 'a'] = .ok 1 := by decide
-example : serveStatic fsOk [⟨mkPrefix [], .folder [['r']]⟩] ['/', 'd', '/', '.', '.', '/', 'a'] = .notFound := by decide
-example : serveStatic fsOk [⟨mkPrefix [], .folder [['r']]⟩] ['/', '/', '/', 's'] = .notFound := by decide
-example : serveStatic fsOk [⟨mkPrefix [], .folder [['r']]⟩] ['/', '/', '/', 'r', '/', 'a'] = .ok 1 := by decide
-example : serveStatic fsOk [⟨mkPrefix [], .tar (tarBuild [(['x', '/'] ++ sIndex, 5)])⟩] ['/', 'x'] = .ok 5 := by decide
+example : serveStatic fsOk Accept.none [⟨mkPrefix [], .folder [['r']]⟩] ['/', 'a'] = .ok 1 := by decide
+example : serveStatic fsOk Accept.none [⟨mkPrefix [], .folder [['r']]⟩] ['/', 'd'] = .ok 2 := by decide
+example : serveStatic fsOk Accept.none [⟨mkPrefix [], .folder [['r']]⟩] ['/', 'd', '/'] = .ok 2 := by decide
+example : serveStatic fsOk Accept.none [⟨mkPrefix [], .folder [['r']]⟩] ['/', 'b'] = .ok 3 := by decide
+example : serveStatic fsOk Accept.none [⟨mkPrefix ['p'], .folder [['r']]⟩] ['/', 'p', '/', '/', 'a'] = .ok 1 := by decide
+example : serveStatic fsOk Accept.none [⟨mkPrefix [], .folder [['r']]⟩] ['/', 'd', '/', '.', '.', '/', 'a'] = .notFound := by decide
+example : serveStatic fsOk Accept.none [⟨mkPrefix [], .folder [['r']]⟩] ['/', '/', '/', 's'] = .notFound := by decide
+example : serveStatic fsOk Accept.none [⟨mkPrefix [], .folder [['r']]⟩] ['/', '/', '/', 'r', '/', 'a'] = .ok 1 := by decide
+example : serveStatic fsOk Accept.none [⟨mkPrefix [], .tar (tarBuild [(['x', '/'] ++ sIndex, 5)])⟩] ['/', 'x'] = .ok 5 := by decide
+/-- a tar member stored as plain and as `.br`: the accepted encoding decides which copy is sent -/
+example : serveStatic fsOk ⟨true, false⟩ [⟨mkPrefix [], .tar (tarBuild [(['a'], 5), (['a', '.', 'b', 'r'], 6)])⟩] ['/', 'a'] = .ok 6 := by decide
+example : serveStatic fsOk Accept.none [⟨mkPrefix [], .tar (tarBuild [(['a'], 5), (['a', '.', 'b', 'r'], 6)])⟩] ['/', 'a'] = .ok 5 := by decide
+/-- the folder source ignores the accepted encodings -/
+example : serveStatic fsOk ⟨true, true⟩ [⟨mkPrefix [], .folder [['r']]⟩] ['/', '.', '.', '/', 's'] = .notFound := by decide
 example : RootOk fsEx [['r']] := rootOk_ex
 
 end VtProps.C07
